@@ -1,5 +1,6 @@
 import Faithful.Lib.CompactIndexProofs
 import Faithful.Lib.CompactIndexBytes
+import Faithful.Lib.CompactIndexLegacyBytes
 import Faithful.Generated.IntFns
 
 /-!
@@ -7,8 +8,10 @@ import Faithful.Generated.IntFns
 
 Statements are about `CI.buildA` / `CI.lookupA` (Faithful/Lib/CompactIndex.lean), the abstract layer of the
 model the driver executes; the byte layer (`CI.encode`, `CI.openB`, `CI.lookupB`) is tied to the real files
-byte for byte, and to the abstract layer answer for answer (`MODEL-LAYERS-DISAGREE` marker), by the
-correspondence run.  All theorems hold for an arbitrary pair of hash functions `hf`, so they never rely on
+byte for byte by the correspondence run, and to the abstract layer by proof (second half of this file:
+`open_encode`, `lookup_bytes_agree`, `build_lookup_bytes`, `lookup_sound_bytes`, and the `…_legacy` versions for
+the two deprecated formats); the driver's `MODEL-LAYERS-DISAGREE` marker remains as a run-time cross-check.
+All theorems hold for an arbitrary pair of hash functions `hf`, so they never rely on
 xxhash being collision free: a bad hash can only make `buildA` fail.
 -/
 namespace C04
@@ -321,5 +324,68 @@ example : ∃ ix db, buildA toyHF 9 25000 [] [⟨[4,5], [1,2,3,4,5,6,7,8,9]⟩] 
   | notFound => rfl
   | hang => simp only [lookupA, hb, hget] at hl; split at hl <;> cases hl
   | err => simp only [lookupA, hb, hget] at hl; split at hl <;> cases hl
+
+/-! ## the byte layer of the legacy formats (`deprecated/compactindex`, `deprecated/compactindex36`)
+
+Same statement for the two formats the server still reads: the index is built with the value width of the format
+(`legacyWidth f fileSize`: `intWidth(FileSize)` bytes for the 8-byte-offset format, 36 for the other) and written by
+`CI.encodeLegacy` (fixed 32-byte header, no metadata).  Hypotheses: `FileSize` is a `uint64`, bucket and item
+counts fit `uint32`, inserted values have exactly the format's width (the 8-byte format stores
+`le width offset`, the 36-byte format 36-byte values).  The stride limit and the 48-bit offset limit are derived. -/
+
+/-- legacy `Open` succeeds on the sealed file, and legacy `Lookup` answers, for EVERY key, exactly what the
+    abstract reader answers -/
+theorem lookup_bytes_agree_legacy (hf : HF) (f : Legacy) (fs declared : Nat) (m : List (Bytes × Bytes))
+    (kvs : List KV) (ix : IndexA)
+    (h : buildA hf (legacyWidth f fs) declared m kvs = .ok ix)
+    (hfs : fs < 2^64) (hnb : numBucketsFor declared < 2^32) (hn : kvs.length < 2^32)
+    (hval : ∀ kv ∈ kvs, kv.val.length = legacyWidth f fs) :
+    ∃ db, openLegacy f (encodeLegacy f fs ix).toArray = some db ∧ db.fileSize = fs ∧ db.numBuckets = ix.numBuckets ∧
+      ∀ key, lookupLegacy hf f (encodeLegacy f fs ix).toArray db key = lookupA hf ix key :=
+  ⟨_, openLegacy_encode f fs ix (legOk_of_build hf f fs declared m kvs ix h hfs hnb hn), rfl, rfl,
+    lookupLegacy_encode hf f fs ix (legOk_of_build hf f fs declared m kvs ix h hfs hnb hn)
+      (valsOk_of_build hf _ declared m kvs ix h hval)⟩
+
+/-- C04 for the legacy files: every inserted key is found with exactly its value by the legacy byte-level reader -/
+theorem build_lookup_bytes_legacy (hf : HF) (f : Legacy) (fs declared : Nat) (m : List (Bytes × Bytes))
+    (kvs : List KV) (ix : IndexA)
+    (h : buildA hf (legacyWidth f fs) declared m kvs = .ok ix)
+    (hfs : fs < 2^64) (hnb : numBucketsFor declared < 2^32) (hn : kvs.length < 2^32)
+    (hval : ∀ kv ∈ kvs, kv.val.length = legacyWidth f fs) :
+    ∃ db, openLegacy f (encodeLegacy f fs ix).toArray = some db ∧
+      ∀ kv ∈ kvs, lookupLegacy hf f (encodeLegacy f fs ix).toArray db kv.key = .found kv.val := by
+  obtain ⟨db, hdb, _, _, hall⟩ := lookup_bytes_agree_legacy hf f fs declared m kvs ix h hfs hnb hn hval
+  exact ⟨db, hdb, fun kv hkv => by rw [hall kv.key]; exact build_lookup hf _ declared m kvs ix h kv hkv⟩
+
+/-- a hit of the legacy byte-level reader is always an inserted pair from the same bucket with the same 24-bit hash -/
+theorem lookup_sound_bytes_legacy (hf : HF) (f : Legacy) (fs declared : Nat) (m : List (Bytes × Bytes))
+    (kvs : List KV) (ix : IndexA)
+    (h : buildA hf (legacyWidth f fs) declared m kvs = .ok ix)
+    (hfs : fs < 2^64) (hnb : numBucketsFor declared < 2^32) (hn : kvs.length < 2^32)
+    (hval : ∀ kv ∈ kvs, kv.val.length = legacyWidth f fs) :
+    ∃ db, openLegacy f (encodeLegacy f fs ix).toArray = some db ∧
+      ∀ key v, lookupLegacy hf f (encodeLegacy f fs ix).toArray db key = .found v →
+        ∃ kv ∈ kvs, ∃ i b, hf.bucket key ix.numBuckets = some i ∧ hf.bucket kv.key ix.numBuckets = some i ∧
+          ix.buckets[i]? = some b ∧ hf.entry b.nonce kv.key = hf.entry b.nonce key ∧ kv.val = v := by
+  obtain ⟨db, hdb, _, _, hall⟩ := lookup_bytes_agree_legacy hf f fs declared m kvs ix h hfs hnb hn hval
+  exact ⟨db, hdb, fun key v hl => lookup_sound hf _ declared m kvs ix h key v (by rw [← hall key]; exact hl)⟩
+
+/-! non-vacuity, both legacy formats at once: FileSize 70000 (three offset bytes in the 8-byte format), one key whose
+    value is the format's encoding of offset 5 -/
+example (f : Legacy) : ∃ ix db, buildA toyHF (legacyWidth f 70000) 25000 [] [⟨[4,5], le (legacyWidth f 70000) 5⟩] = .ok ix ∧
+    openLegacy f (encodeLegacy f 70000 ix).toArray = some db ∧
+    lookupLegacy toyHF f (encodeLegacy f 70000 ix).toArray db [4,5] = .found (le (legacyWidth f 70000) 5) := by
+  have hw1 : 0 < legacyWidth f 70000 := by
+    cases f with
+    | l36 => simp [legacyWidth]
+    | l8 =>
+      simp only [legacyWidth]
+      rw [show (70000:Nat) = 69999 + 1 from rfl, intWidth_succ]; omega
+  have hw2 := legacyWidth_le f 70000 (by decide)
+  obtain ⟨ix, h⟩ := build_singleton_ok toyHF (legacyWidth f 70000) 25000 [] ⟨[4,5], le (legacyWidth f 70000) 5⟩
+    ⟨hw1, by omega⟩ (by omega) 2 (show toyHF.bucket [4,5] (numBucketsFor 25000) = some 2 by decide) (by decide)
+  obtain ⟨db, hdb, hall⟩ := build_lookup_bytes_legacy toyHF f 70000 25000 _ _ ix h (by decide) (by decide) (by simp)
+    (by intro kv hkv; simp only [List.mem_cons, List.mem_nil_iff, or_false] at hkv; subst hkv; exact le_length _ _)
+  exact ⟨ix, db, h, hdb, hall ⟨[4,5], le (legacyWidth f 70000) 5⟩ (by simp)⟩
 
 end C04
